@@ -670,6 +670,113 @@ def attribute_job(attr):
     return out
 
 
+# ---------------------------------------------------------------- (F) arrays handed out by the library; parameter objects
+def returned_job(which):
+    """Whatever the caller does with an array that a library object handed out (or with a parameter object after something was
+    built from it), later computations with the library's objects give what they gave before - the array is a copy or
+    read-only, the parameter object was copied."""
+    import oqupy
+    sx, sz = oqupy.operators.sigma("x"), oqupy.operators.sigma("z")
+    rho = np.array([[0.7, 0.2 - 0.1j], [0.2 + 0.1j, 0.3]], dtype=complex)
+    corr = oqupy.PowerLawSD(alpha=0.1, zeta=1.0, cutoff=2.0, cutoff_type="exponential", temperature=0.0)
+    out = []
+
+    def scribble(x):
+        """try to overwrite in place; True if the library's array could be written"""
+        try:
+            if isinstance(x, np.ndarray):
+                x[...] = 7.0
+                return True
+            if isinstance(x, list):
+                return any(scribble(y) for y in x)
+        except (ValueError, TypeError):
+            return False
+        return False
+
+    try:
+        if which.startswith("System."):
+            attr = which.split(".")[1]
+            s_ = oqupy.System(0.5 * sx + 0.2 * sz, gammas=[0.3], lindblad_operators=[sx - 1j * oqupy.operators.sigma("y")])
+            run = lambda: np.array(oqupy.compute_dynamics(s_, initial_state=rho, dt=0.1, num_steps=3, progress_type="silent").states)
+            before = run()
+            x = getattr(s_, attr)
+            scribble(x() if callable(x) else x)
+            after = run()
+        elif which.startswith("Bath."):
+            attr = which.split(".")[1]
+            b_ = oqupy.Bath(0.5 * sz + 0.2 * sx, corr)
+            par = oqupy.TempoParameters(dt=0.1, epsrel=1e-7, dkmax=2)
+            run = lambda: np.array(oqupy.Tempo(oqupy.System(0.5 * sx), b_, par, rho, 0.0).compute(0.21, progress_type="silent").states)
+            before = run()
+            scribble(getattr(b_, attr))
+            after = run()
+        elif which == "SimpleProcessTensor.get_mpo_tensor":
+            from oqupy.process_tensor import SimpleProcessTensor
+            pt = SimpleProcessTensor(2, dt=0.1)
+            for k in range(3):
+                pt.set_mpo_tensor(k, np.diag([1.0, 0.8, 0.8, 1.0]).reshape(1, 1, 4, 4))
+            pt.compute_caps()
+            run = lambda: np.array(oqupy.compute_dynamics(oqupy.System(0.5 * sx), initial_state=rho, process_tensor=pt,
+                                                          progress_type="silent").states)
+            before = run()
+            scribble(pt.get_mpo_tensor(1))
+            scribble(pt.get_mpo_tensor(1, transformed=False))
+            scribble(pt.get_cap_tensor(1))
+            after = run()
+        elif which == "Dynamics.states":
+            d_ = oqupy.compute_dynamics(oqupy.System(0.5 * sx), initial_state=rho, dt=0.1, num_steps=3, progress_type="silent")
+            before = np.array(d_.states)
+            scribble(d_.states)
+            scribble(d_.times)
+            after = np.array(d_.states)
+        elif which == "PtTebd(parameters)":
+            chain = oqupy.SystemChain([2, 2])
+            chain.add_site_hamiltonian(0, 0.5 * sx)
+            chain.add_nn_hamiltonian(0, sz, sz)
+
+            def leg(change):
+                par = oqupy.PtTebdParameters(dt=0.1, epsrel=1e-9)
+                t = oqupy.PtTebd(oqupy.AugmentedMPS([rho, rho]), chain, [None, None], par, dynamics_sites=[0])
+                t.compute(2, progress_type="silent")
+                if change:
+                    par.dt = 0.5
+                    par.epsrel = 1e-2
+                r = t.compute(4, progress_type="silent")
+                return np.concatenate([np.array(r["time"], dtype=complex), np.array(r["dynamics"][0].states).reshape(-1)])
+            before, after = leg(False), leg(True)
+        elif which == "Tempo(parameters)":
+            def leg(change):
+                cc = oqupy.PowerLawSD(alpha=0.1, zeta=1.0, cutoff=2.0, cutoff_type="exponential", temperature=0.0)
+                t = oqupy.Tempo(oqupy.System(0.5 * sx), oqupy.Bath(0.5 * sz, cc), oqupy.TempoParameters(dt=0.1, epsrel=1e-7, dkmax=2),
+                                rho, 0.0)
+                t.compute(0.21, progress_type="silent")
+                if change:
+                    try:
+                        t._parameters.__class__.dt.fset(t._parameters, 0.5)      # TempoParameters is read-only: nothing to set
+                    except (AttributeError, TypeError):
+                        pass
+                r = t.compute(0.41, progress_type="silent")
+                return np.concatenate([np.array(r.times, dtype=complex), np.array(r.states).reshape(-1)])
+            before, after = leg(False), leg(True)
+        else:
+            raise ValueError(which)
+        if before.shape != after.shape or np.max(np.abs(before - after)) > 1e-12:
+            out.append({"what": "library-state-changed-through-what-it-handed-out", "which": which,
+                        "err": float(np.max(np.abs(before - after))) if before.shape == after.shape else "shape"})
+    except Exception as ex:  # pylint: disable=broad-except
+        import traceback
+        out.append({"what": "exception", "which": which, "detail": "%s: %s" % (type(ex).__name__, str(ex)[:150]), "tb": traceback.format_exc()[-300:]})
+    return out
+
+
+RETURNED = ["System.liouvillian", "System.hamiltonian", "System.gammas", "System.lindblad_operators", "Bath.coupling_operator",
+            "Bath.unitary_transform", "Bath.north_degeneracy_map", "Bath.west_degeneracy_map",
+            "Dynamics.states", "PtTebd(parameters)", "Tempo(parameters)"]
+# not in the list: SimpleProcessTensor.get_mpo_tensor / get_cap_tensor hand out the stored arrays themselves.  A process tensor
+# is a mutable container (set_mpo_tensor), writing through the getter's array is another way of changing its content; C20 does
+# not forbid it (recorded in DESIGN.md 12.7 as an observation).
+
+
 def hkey(c):
     return tuple((h["op"], h["arg"]) for h in c["hist"])
 
@@ -762,6 +869,11 @@ def run(ctx):
             if x["what"] == "harness":
                 raise core.MachineryError(x["detail"])
             ctx.violation("C20:snapshot:%s:%s" % (k, x["what"]), "%s %s: %s" % (k, hd, x), {"snapshot": [c, k]})
+    # (F) arrays handed out by library objects and parameter objects changed after use
+    for which, mm in zip(RETURNED, core.pmap(returned_job, RETURNED)):
+        ctx.case({"handed_out": which}, nontrivial=True)
+        for x in mm:
+            ctx.violation("C20:handed-out:%s:%s" % (which, x["what"]), str(x), {"returned": which})
     # (C) reuse of shared objects
     kinds = '{"tempo", "pttempo", "dynamics", "correlations", "gradient", "gradient-inplace", "td-start0", "td-start1", "mf-dt1", "mf-dt2", "mf-cdwf", "gibbs", "tebd", "bathcorr-early", "bathcorr-late", "bathocc", "pttempo-nomem-short", "tempo-nomem-long"}'
     ru = ctx.tlc("ObjectGraph", CFG_USE, label="sequences of computations re-using shared objects", workers=2,
@@ -790,6 +902,9 @@ def replay(ctx, rep):
             ctx.violation("C20:replay:" + x["what"], str(x), c)
     elif "reuse" in c:
         for x in reuse_job(c["reuse"]):
+            ctx.violation("C20:replay:" + x["what"], str(x), c)
+    elif "returned" in c:
+        for x in returned_job(c["returned"]):
             ctx.violation("C20:replay:" + x["what"], str(x), c)
     elif "snapshot" in c:
         for x in snapshot_job(tuple(c["snapshot"])):
